@@ -56,6 +56,9 @@ func TestFreeCallers(t *testing.T) {
 				if n%5 == 0 {
 					time.Sleep(50 * time.Microsecond) // some answers take a little longer
 				}
+				if n%40 == 0 {
+					return // the server drops the connection now and then (after a complete exchange): callers reconnect while others wait
+				}
 				resp := &kmip.ResponseMessage{Header: kmip.ResponseHeader{ProtocolVersion: req.Header.ProtocolVersion, TimeStamp: time.Unix(1700000000, 0), BatchCount: int32(len(req.BatchItem))}}
 				for _, bi := range req.BatchItem {
 					pl := bi.RequestPayload.(*payloads.ActivateRequestPayload)
